@@ -471,6 +471,30 @@ class Program:
                     r = self.repo.resolve_expr(_strip_optional(a.annotation), fi.module, fi)
                     if isinstance(r, ClassInfo):
                         return r
+            # a local that is only ever bound to instances of one class of the package: x = C(...)
+            classes: set = set()
+            other = False
+            for n in walk_no_nested(fi.node):
+                tgts: list[ast.AST] = []
+                val = None
+                if isinstance(n, ast.Assign):
+                    tgts, val = list(n.targets), n.value
+                elif isinstance(n, ast.AnnAssign) and n.value is not None:
+                    tgts, val = [n.target], n.value
+                elif isinstance(n, (ast.For, ast.AugAssign, ast.With, ast.NamedExpr)):
+                    if any(isinstance(x, ast.Name) and x.id == expr.id and isinstance(x.ctx, ast.Store) for x in ast.walk(n.target if hasattr(n, "target") else n)):
+                        other = True
+                for t in tgts:
+                    if isinstance(t, ast.Name) and t.id == expr.id:
+                        r = self.repo.resolve_expr(val.func, fi.module, fi) if isinstance(val, ast.Call) and isinstance(val.func, (ast.Name, ast.Attribute)) else None
+                        if isinstance(r, ClassInfo):
+                            classes.add(r.qual)
+                        else:
+                            other = True
+                    elif any(isinstance(x, ast.Name) and x.id == expr.id for x in ast.walk(t)):
+                        other = True
+            if len(classes) == 1 and not other and expr.id not in fi.params:
+                return self.repo.classes[next(iter(classes))]
         return None
 
     def resolve_call(self, fi: FuncInfo, call: ast.Call) -> list[FuncInfo] | str | None:
